@@ -18,7 +18,7 @@
 //	finish <id> <code> …          -> unparked <pass|fallback> <state> done <code> <state>   when a request is parked *and holds the lock*
 //	                                 (probed with String(), 25 ms): the parked request is decided first, then the completion proceeds;
 //	                                 if the parked request does not hold the lock the completion simply proceeds and it stays parked
-//	finish2 <id1> <c1> <id2> <c2> [q=…] -> unparked <pass|fallback> done2 <c1> <c2> <state>   only while a request is parked and the breaker is
+//	finish2 <id1> <c1> <id2> <c2> [q=…] [adv=<ns>] -> unparked <pass|fallback> done2 <c1> <c2> <state>   only while a request is parked and the breaker is
 //	                                 recovering (now <= until) or tripped (now < until): both handlers return one after the other, both
 //	                                 requests run metrics.Record and then wait for the lock the parked request holds (25 ms each), then the
 //	                                 parked request is released: Record_1 Record_2 <decision> checkAndSet checkAndSet — the schedule in which
@@ -715,6 +715,10 @@ func (s *h) op(f []string, line *string) string {
 		if waitAnswerOrBlocked(chanClosed(f2.done), "ServeHTTP", 2) {
 			return "finish2-second-not-blocked"
 		}
+		// adv=<ns>: the clock moves on while both completions wait for the lock
+		if adv := hx.KVInt(f, "adv", 0); adv > 0 {
+			clock.Advance(time.Duration(adv))
+		}
 		pid := s.parkedID
 		pf := s.flights[pid]
 		pf.start = clock.Now().UTC()
@@ -736,6 +740,9 @@ func (s *h) op(f []string, line *string) string {
 		if orc != "" {
 			if annotate {
 				*line = strings.Join(f[:5], " ") + " q=" + orc
+				if adv, ok := hx.KV(f, "adv"); ok {
+					*line += " adv=" + adv
+				}
 			} else if given, _ := hx.KV(f, "q"); given != orc {
 				mismatch = " oracle-mismatch=" + orc
 			}
